@@ -765,6 +765,11 @@ class Run:
                     st = json.loads(b)
                     used = sorted({x["m"] for x in st if "m" in x})
                     ops = [{"op": "new", "o": "m%d" % m, "v": msgs[m - 1]["v"]} for m in used]
+                    # a reference rendering of every message the behaviour encodes, made before the behaviour starts (copies, buffers
+                    # of their own): the self-referential clauses (context-free, known-good layout) then have something to compare with
+                    for m in used:
+                        ops += [{"op": "new", "o": "ref%d" % m, "v": msgs[m - 1]["v"]},
+                                {"op": "encode", "b": "bref%d" % m, "o": "ref%d" % m, "tag": "reference-before-the-behaviour"}]
                     for x in st:
                         if x["op"] == "stale":
                             ops.append({"op": "new", "o": "m%d" % x["m"], "v": x["vpost"], "tag": "stale-fields"})
